@@ -127,7 +127,7 @@ def gen_docstring(rng, style, names):
 
 
 def gen_case(rng, i):
-    kind = ["docstring", "function", "class", "emitted", "text"][i % 5]
+    kind = ["docstring", "function", "class", "emitted", "text", "class_merge"][i % 6]
     style = rng.choice(STYLES)
     if kind == "docstring":
         names = rng.sample(PNAMES, rng.randint(0, 4))
@@ -161,6 +161,19 @@ def gen_case(rng, i):
                          for n in names)
         doc = "\n".join(["    Class doc", ""] + ["    :cvar %s: %s" % (n, rng.choice(DESCS)) for n in rng.sample(names, rng.randint(0, len(names)))])
         return {"kind": kind, "style": "rest", "src": 'class K(object):\n    """\n%s\n    """\n\n%s\n' % (doc, body)}
+    if kind == "class_merge":
+        # a class whose interface lives in an inner function that the parser is asked to merge in
+        meth = rng.choice(["__call__", "__init__", "forward"])
+        sig_names = rng.sample(PNAMES, rng.randint(1, 4))
+        ndef = rng.randint(0, len(sig_names))
+        sig = [n if i_ < len(sig_names) - ndef else "%s=%s" % (n, rng.choice(["5", "'x'", "0.5", "True"])) for i_, n in enumerate(sig_names)]
+        receiver = rng.choice(["self", "self", None])
+        documented = rng.sample(sig_names, rng.randint(0, len(sig_names)))
+        doc = "\n".join(["        Do it", ""] + ["        :param %s: %s" % (n, rng.choice(DESCS)) for n in documented])
+        deco = "" if receiver else "    @staticmethod\n"
+        src = ('class K(object):\n    """\n    Class doc\n    """\n\n%s    def %s(%s):\n        """\n%s\n        """\n        return 1\n'
+               % (deco, meth, ", ".join(([receiver] if receiver else []) + sig), doc))
+        return {"kind": kind, "style": "rest", "src": src, "sig": sig_names, "merge": meth}
     if kind == "emitted":
         names = rng.sample(PNAMES, rng.randint(1, 4))
         ir = {"name": "Thing", "doc": "Thing doc", "params": {n: {"typ": rng.choice(["int", "str", "bool", "float", "Optional[int]",
@@ -197,6 +210,9 @@ def impl_case(c):
                 sig = c["sig"]
             elif c["kind"] == "class":
                 ir = cdd.class_.parse.class_(ast.parse(c["src"]).body[0])
+            elif c["kind"] == "class_merge":
+                ir = cdd.class_.parse.class_(ast.parse(c["src"]).body[0], merge_inner_function=c["merge"])
+                sig = c["sig"]
             else:
                 import copy
                 base = copy.deepcopy(c["ir"])
